@@ -37,4 +37,8 @@ path = '/verif/selftest/results.json'
 old = json.load(open(path)) if os.path.exists(path) else {}
 for r in res:
     old[r['patch']] = r
+# entries whose patch no longer exists are dropped
+names = {i[0] for i in items} if not flt else None
+if names is not None:
+    old = {k: v for k, v in old.items() if k in names}
 json.dump(old, open(path, 'w'), indent=1, sort_keys=True)
